@@ -50,6 +50,7 @@ class PathState:
         self.steps = 0
         self.decided = {}        # id of a decided condition -> its truth on this path
         self.keep = []           # keeps the decided conditions alive (ids are only unique while alive)
+        self.undo_log = []       # callbacks undoing cached derived state when a tentative evaluation is rolled back
 
     # -- fresh symbols -----------------------------------------------------------------
     def fresh_name(self, base):
